@@ -295,7 +295,7 @@ def stats(recs):
             if not (e.get("fired") and e.get("matched")):
                 st["crash_unfired"] += 1
                 continue
-            key = e["kind"] + (":" + e["sys"] if e.get("sys") else "") + (":" + e["errno"] if e.get("errno") else "")
+            key = e["kind"] + (":" + e["sys"] if e.get("sys") and not e["kind"].startswith("torn") else "") + (":" + e["errno"] if e.get("errno") else "")
             st["by_fault"][key] = st["by_fault"].get(key, 0) + 1
             oc = "load-failed" if not e["loaded"] else "new" if e["eq_new"] else "old" if e["eq_old"] else "neither"
             st["outcomes"][e["kind"] + "->" + oc] = st["outcomes"].get(e["kind"] + "->" + oc, 0) + 1
@@ -380,11 +380,20 @@ def run(ctx):
         hs = gen_histories(ctx, binp)
         want = None
 
-    recs = run_shards(ctx, binp, hs, ctx.path("run", "x")[:-2])
+    def sub(*a):
+        p = os.path.join(ctx.out, *a)
+        os.makedirs(p, exist_ok=True)
+        return p
+
+    recs = run_shards(ctx, binp, hs, sub("run"))
     nsn = 6 if q else 40
     if want is not None:
-        snaps = [s for s in recs if s["ev"] == "snap" and any(s["name"] == w["name"] for w in want)]
-        variants = {w["name"]: w["variant"] for w in want}
+        snaps, variants = [], {}
+        for s in recs:
+            for w in want:
+                if s["ev"] == "snap" and (s["h"], s["k"], s["origin"]) == (w["h"], w["k"], w["origin"]):
+                    snaps.append(s)
+                    variants[s["name"]] = w["variant"]
     else:
         snaps = pick_snapshots(recs, nsn, rnd)
         vs = ["entry", "insertpod", "setpolicy", "deletectr"]
@@ -393,18 +402,18 @@ def run(ctx):
         lp = ctx.path("crash", "snaps.json")
         json.dump([{"name": s["name"], "dir": s["dir"], "variant": variants[s["name"]]} for s in snaps], open(lp, "w"))
         tp = ctx.path("crash", "trace.ndjson")
-        rc, out = vlib.sh([binp, "crash", "--snaps", lp, "--out", tp, "--work", ctx.path("crash", "work", "x")[:-2], "--self", binp,
+        rc, out = vlib.sh([binp, "crash", "--snaps", lp, "--out", tp, "--work", sub("crash", "work"), "--self", binp,
                            "--workers", str(vlib.NCPU), "--torn", "2" if q else "12", "--seed", str(ctx.seed)], timeout=600 if q else 3000)
         if rc != 0:
             raise vlib.Inconclusive("persistdrv crash failed rc=%s: %s" % (rc, out[-2000:]))
         recs += vlib.read_ndjson(tp)
-        shutil.rmtree(ctx.path("crash", "work", "x")[:-2], ignore_errors=True)
+        shutil.rmtree(sub("crash", "work"), ignore_errors=True)
     up = ctx.path("unsafe", "trace.ndjson")
-    rc, out = vlib.sh([binp, "unsafe", "--out", up, "--work", ctx.path("unsafe", "work", "x")[:-2]], timeout=300)
+    rc, out = vlib.sh([binp, "unsafe", "--out", up, "--work", sub("unsafe", "work")], timeout=300)
     if rc != 0:
         raise vlib.Inconclusive("persistdrv unsafe failed rc=%s: %s" % (rc, out[-2000:]))
     recs += vlib.read_ndjson(up)
-    shutil.rmtree(ctx.path("unsafe", "work", "x")[:-2], ignore_errors=True)
+    shutil.rmtree(sub("unsafe", "work"), ignore_errors=True)
     shutil.rmtree(os.path.join(ctx.out, "run", "snaps"), ignore_errors=True)
     vlib.write_ndjson(ctx.path("trace.ndjson"), recs)
 
@@ -435,7 +444,7 @@ def run(ctx):
             if n in by_name and by_name[n]["h"] not in hidx:
                 hidx.append(by_name[n]["h"])
         payload = {"histories": [hs[i] for i in hidx],
-                   "snapshots": [{"name": n.replace("h%d-" % by_name[n]["h"], "h%d-" % hidx.index(by_name[n]["h"])), "variant": variants[n]}
+                   "snapshots": [{"h": hidx.index(by_name[n]["h"]), "k": by_name[n]["k"], "origin": by_name[n]["origin"], "variant": variants[n]}
                                  for n in snames if n in by_name],
                    "records": [recs[v["src"]] for v in mine[:10] if 0 <= v.get("src", -1) < len(recs)]}
 
